@@ -37,6 +37,8 @@ def cases(tier, seed):
         nports = r.choice([1, 2, 2, 3, 4])
         if r.random() < 0.3:
             mem["nranks"] = 2
+            if mem.get("kind") == "synthetic" and mem["bankbits"] >= 4:
+                mem["bankbits"] = 3      # 32 bank machines simulate at < 10 cycles/s
         zq = False
         if refresh and r.random() < 0.35:
             zq = True
